@@ -42,6 +42,8 @@ pub trait DynAddr {
     fn sender_unit(&self) -> Sender<()>;
     fn sender_b0(&self) -> Sender<Bcast<0>>;
     fn sender_b1(&self) -> Sender<Bcast<1>>;
+    fn weak_topic0(&self) -> WeakSender<Topic<0>>;
+    fn weak_topic1(&self) -> WeakSender<Topic<1>>;
     fn register(self: Box<Self>) -> LocalBoxFuture<'static, Result<(Box<dyn DynAddr>, Option<Box<dyn DynAddr>>)>>;
     fn replace(self: Box<Self>) -> LocalBoxFuture<'static, Option<Box<dyn DynAddr>>>;
 }
@@ -106,6 +108,12 @@ impl<const K: usize> DynAddr for Addr<Node<K>> {
     }
     fn sender_b1(&self) -> Sender<Bcast<1>> {
         Addr::sender(self)
+    }
+    fn weak_topic0(&self) -> WeakSender<Topic<0>> {
+        Addr::weak_sender(self)
+    }
+    fn weak_topic1(&self) -> WeakSender<Topic<1>> {
+        Addr::weak_sender(self)
     }
     fn register(self: Box<Self>) -> LocalBoxFuture<'static, Result<(Box<dyn DynAddr>, Option<Box<dyn DynAddr>>)>> {
         async move {
@@ -319,6 +327,9 @@ pub enum Op {
     TryFromRegistry { k: usize, h2: usize },
     AlreadyRunning { k: usize },
     Publish { j: usize, m: usize, via: usize },
+    /// a client subscribes / unsubscribes the actor behind address handle `h`
+    BSubscribe { j: usize, h: usize },
+    BUnsubscribe { j: usize, h: usize },
     SetDefaultBehaviour(Behaviour),
 }
 
@@ -344,7 +355,7 @@ pub fn reset_ops() {
     CTXMAP.with(|p| p.borrow_mut().clear());
     STREAMS.with(|p| p.borrow_mut().clear());
 }
-fn fresh_op() -> usize {
+pub fn fresh_op() -> usize {
     NEXT_OP.with(|n| {
         let mut n = n.borrow_mut();
         let v = *n;
@@ -960,14 +971,35 @@ async fn exec_op(c: usize, op: Op) {
             });
         }
         Op::Publish { j, m, via } => {
-            let o = begin(c, usize::MAX, "publish", Some(m));
+            let o = fresh_op();
+            emit(format!("bbegin {} pub {} {}", o, j, m));
+            PENDING.with(|p| p.borrow_mut().push(o));
             let r = match (j, via) {
                 (0, 0) => Broker::publish(Topic::<0> { m }).await,
                 (0, _) => Broker::<Topic<0>>::from_registry().await.publish(Topic::<0> { m }).await,
                 (_, 0) => Broker::publish(Topic::<1> { m }).await,
                 (_, _) => Broker::<Topic<1>>::from_registry().await.publish(Topic::<1> { m }).await,
             };
-            ret(o, format!("{} {}", res_str(&r), j));
+            PENDING.with(|p| p.borrow_mut().retain(|x| *x != o));
+            emit(format!("bret {} {}", o, res_str(&r)));
+        }
+        Op::BSubscribe { j, h } | Op::BUnsubscribe { j, h } => {
+            let sub = matches!(op, Op::BSubscribe { .. });
+            let Some(hb) = take(h) else { return };
+            if let HandleBox::Addr(a, addr) = &hb {
+                let o = fresh_op();
+                emit(format!("bbegin {} {} {} {}", o, if sub { "sub" } else { "unsub" }, j, a));
+                PENDING.with(|p| p.borrow_mut().push(o));
+                let r = match (j, sub) {
+                    (0, true) => Broker::<Topic<0>>::subscribe(addr.weak_topic0()).await,
+                    (0, false) => Broker::<Topic<0>>::from_registry().await.unsubscribe(addr.weak_topic0()).await,
+                    (_, true) => Broker::<Topic<1>>::subscribe(addr.weak_topic1()).await,
+                    (_, false) => Broker::<Topic<1>>::from_registry().await.unsubscribe(addr.weak_topic1()).await,
+                };
+                PENDING.with(|p| p.borrow_mut().retain(|x| *x != o));
+                emit(format!("bret {} {}", o, res_str(&r)));
+            }
+            put(h, hb);
         }
     }
 }
